@@ -194,7 +194,7 @@ func TestC19(t *testing.T) {
 }
 
 func c19body(t *testing.T, rep *lib.Report, journal func(string)) {
-	rep.Rule = "sequential: all histories of <=3 Add over payloads {empty, a, two lines, YAML-looking, 1504 bytes} (quick: the third is always 'a') x a gap of 0 / 0.5 s / 1 s / 25 min between steps, starting 600 ms into a second, real wal.WAL over the reference store inside a synctest bubble; concurrent: 2 (thorough 3) appenders with Touch/GetAttr/Put gated, all interleavings + tick placements; after each history ListEntries from every issued token and synthetic tokens (±1s, +15min, +20min-1s, +20min, +20min+1s, ±30min: inside, at the edges of and beyond the 20-minute look-back window) x max in {1,2,3,1000}; oracle: unique KSUID tokens ordered across seconds, listing = appended entries with token >= back-dated start and includes every entry whose append started within 20 minutes before the start token's time, token order, payload byte-identical; distinct = distinct histories/outcomes"
+	rep.Rule = "sequential: all histories of <=3 Add over payloads {empty, a, two lines, YAML-looking, 1504 bytes} (quick: the third is always 'a') x a gap of 0 / 0.5 s / 1 s / 25 min between steps, starting 600 ms into a second, real wal.WAL over the reference store inside a synctest bubble; concurrent: 2 (thorough 3) appenders with Touch/GetAttr/Put gated, all interleavings + tick placements; after each history ListEntries from every issued token and synthetic tokens (±1s, +15min, +20min-1s, +20min, +20min+1s, ±30min: inside, at the edges of and beyond the 20-minute look-back window) x max in {1,2,3,1000}; oracle: unique KSUID tokens ordered across seconds, listing = appended entries with token >= back-dated start and includes every entry whose append started within 20 minutes before the start token's time, token order, payload byte-identical; plus three appends one second apart with every store call of Add a fault point (transient error before / after / after-reading-the-body on writes, before on reads; one fault per execution): an acknowledged entry is listed with its payload unchanged and no listed payload is one that was never appended; distinct = distinct histories/outcomes"
 	names := []string{"empty", "a", "twolines", "yamlish", "big"}
 	// ---- sequential histories
 	var hist [][]string
@@ -301,6 +301,85 @@ func c19body(t *testing.T, rep *lib.Report, journal func(string)) {
 		if lib.Thorough() && n == 2 {
 			e.FaultBound = 2
 		}
+		e.Explore(t, rep)
+		rep.Set(sc.Name+"_executions", e.Execs)
+	}
+	// ---- appends under a single transient store fault: an acknowledged entry is listed with its payload unchanged
+	{
+		payloads := []string{"a", "line one\nline two\n", c19payloads["big"]}
+		sc := &lib.Scenario{Name: "appends-under-fault"}
+		sc.Setup = func(x *lib.Exec) {
+			x.Data["mutable"], x.Data["wal"] = lib.NewMemStore("mutable"), lib.NewMemStore("wal")
+			x.Data["adds"] = make([]c19add, len(payloads))
+		}
+		sc.Phases = [][]lib.ClientFn{{func(x *lib.Exec, id int) error {
+			mutable := &lib.GatedStore{Inner: x.Data["mutable"].(*lib.MemStore), X: x, Client: id, Name: "mutable"}
+			ws := &lib.GatedStore{Inner: x.Data["wal"].(*lib.MemStore), X: x, Client: id, Name: "wal"}
+			w := wal.New(mutable, ws, wal.Logger(nopLogger))
+			for i, pl := range payloads {
+				time.Sleep(time.Second)
+				a := c19add{Payload: pl, Start: time.Now()}
+				a.Token, a.Err = w.Add(context.Background(), a.Payload)
+				a.End = time.Now()
+				x.Data["adds"].([]c19add)[i] = a
+			}
+			return nil
+		}}}
+		sc.Faults = func(x *lib.Exec, c *lib.Call) []lib.Decision {
+			if c.Write {
+				return []lib.Decision{lib.FailBefore, lib.FailAfter, lib.FailConsumed}
+			}
+			return []lib.Decision{lib.FailBefore}
+		}
+		sc.Final = func(x *lib.Exec) {
+			if x.Hung {
+				x.Violate("C19|add-hangs|under-fault", "appender never returned")
+				return
+			}
+			adds := x.Data["adds"].([]c19add)
+			w := wal.New(x.Data["mutable"].(*lib.MemStore), x.Data["wal"].(*lib.MemStore), wal.Logger(nopLogger))
+			first, acked := "", 0
+			for _, a := range adds {
+				if a.Err == nil && (first == "" || a.Token < first) {
+					first = a.Token
+				}
+				if a.Err == nil {
+					acked++
+				}
+			}
+			x.SetOutcome(fmt.Sprintf("acked=%d", acked))
+			if first == "" {
+				return
+			}
+			got, _, err := w.ListEntries(context.Background(), first, 1000)
+			if err != nil {
+				x.Violate("C19|under-fault|list-error", err.Error())
+				return
+			}
+			byTok := map[string]string{}
+			for _, e := range got {
+				byTok[e.Token] = e.Payload
+				known := false
+				for _, pl := range payloads {
+					known = known || e.Payload == pl
+				}
+				if !known {
+					x.Violate("C19|under-fault|listed-payload-was-never-appended", fmt.Sprintf("entry %s carries %q", e.Token, trunc(e.Payload)))
+				}
+			}
+			for _, a := range adds {
+				if a.Err != nil {
+					continue
+				}
+				if pl, ok := byTok[a.Token]; !ok {
+					x.Violate("C19|under-fault|acknowledged-entry-not-listed", fmt.Sprintf("Add(%q) returned %s, listing from %s holds %d entries without it", trunc(a.Payload), a.Token, first, len(got)))
+				} else if pl != a.Payload {
+					x.Violate("C19|under-fault|acknowledged-entry-payload-changed", fmt.Sprintf("Add(%q) returned %s, listed payload %q (%d of %d bytes)", trunc(a.Payload), a.Token, trunc(pl), len(pl), len(a.Payload)))
+				}
+			}
+		}
+		journal("sequential " + sc.Name)
+		e := &lib.Explorer{Sc: sc, PreemptBound: 0, FaultBound: 1, MaxExecs: 200000}
 		e.Explore(t, rep)
 		rep.Set(sc.Name+"_executions", e.Execs)
 	}
